@@ -99,13 +99,17 @@ Theorem method_table_none : forall c m, ~ In m (all_names (methods c)) -> lookup
 Proof. exact method_table_none_l. Qed.
 Print Assumptions method_table_none.
 
-Theorem config_fixed_once : forall l1 i l2,
-  Forall (fun x => x = InForeign) l1 -> i <> InForeign ->
-  run_updates None (l1 ++ i :: l2) = Some (effective (incoming_cfg i)).
+(* over every sequence of environment steps: foreign-type configs and
+   connections shutting down before the first accepted update; after it any
+   update (any config, nil, wrong type, SubConn creation refused or not) and
+   any number of connections shutting down - an emptied pool included *)
+Theorem config_fixed_once : forall l1 i r l2,
+  Forall no_config_step l1 -> i <> InForeign ->
+  b_cfg (run_steps init_state (l1 ++ SUpdate i r :: l2)) = Some (effective (incoming_cfg i)).
 Proof. exact config_fixed_once_l. Qed.
 Print Assumptions config_fixed_once.
 
-Theorem config_never_changes : forall l s i e, fst (update s i) = Some e -> run_updates s (i :: l) = Some e.
+Theorem config_never_changes : forall l s e c, b_cfg (step s e) = Some c -> b_cfg (run_steps s (e :: l)) = Some c.
 Proof. exact config_never_changes_l. Qed.
 Print Assumptions config_never_changes.
 
@@ -148,17 +152,38 @@ Proof. vm_compute. auto. Qed.
 Definition ex_obs (mx : Z) : uobs :=
   mkUobs (Some (mkCfg (Some (mkPool mx 0 100 1 false 0 0 0)) [])) [] false 1.
 Example ex_monitor_false :
-  c17 (CBalancer 1 4 100 [EvUpdate (InNil 0) (mkOut false 1 1) true (ex_obs 5)]) = false /\
-  c17 (CBalancer 1 4 100 [EvUpdate (InNil 0) (mkOut false 1 1) true (ex_obs 4)]) = true.
+  c17 (CBalancer 1 4 100 [EvUpdate (InNil 0) false (mkOut false 1 1 1) true (ex_obs 5)]) = false /\
+  c17 (CBalancer 1 4 100 [EvUpdate (InNil 0) false (mkOut false 1 1 1) true (ex_obs 4)]) = true.
 Proof. vm_compute. auto. Qed.
 
 (* ... so does one that re-reads the configuration on the second update, and one whose
    state follows the caller's message when that is overwritten *)
+Definition cfg9 : ApiConfig := mkCfg (Some (mkPool 9 0 0 0 false 0 0 0)) [].
 Example ex_fixed_once_false :
-  c17 (CBalancer 1 4 100 [EvUpdate (InNil 0) (mkOut false 1 1) true (ex_obs 4);
-                          EvUpdate (InCfg (mkCfg (Some (mkPool 9 0 0 0 false 0 0 0)) [])) (mkOut false 0 1) true (ex_obs 9)]) = false /\
-  c17 (CBalancer 1 4 100 [EvUpdate (InNil 0) (mkOut false 1 1) true (ex_obs 4); EvMutate (ex_obs 11)]) = false.
+  c17 (CBalancer 1 4 100 [EvUpdate (InNil 0) false (mkOut false 1 1 1) true (ex_obs 4);
+                          EvUpdate (InCfg cfg9) false (mkOut false 0 0 1) true (ex_obs 9)]) = false /\
+  c17 (CBalancer 1 4 100 [EvUpdate (InNil 0) false (mkOut false 1 1 1) true (ex_obs 4); EvMutate (ex_obs 11)]) = false.
 Proof. vm_compute. auto. Qed.
+
+(* the pool is emptied between two updates (every connection reports Shutdown), or no
+   connection could be created during the first one: the second update's config must
+   still be ignored.  The model keeps the first config; a trace in which the balancer
+   took the second one fails the monitor and is rejected by the model. *)
+Definition ex_obs_p (mx pool : Z) : uobs :=
+  mkUobs (Some (mkCfg (Some (mkPool mx 0 100 1 false 0 0 0)) [])) [] false pool.
+Example ex_emptied_pool :
+  b_cfg (run_steps init_state [SUpdate (InNil 0) false; SShutdown 1000; SUpdate (InCfg cfg9) false]) = Some (effective None) /\
+  b_cfg (run_steps init_state [SUpdate (InNil 0) true; SUpdate (InCfg cfg9) false]) = Some (effective None) /\
+  (let good := [EvUpdate (InNil 0) false (mkOut false 1 1 1) true (ex_obs_p 4 1); EvShutdown 1000 (ex_obs_p 4 0);
+                EvUpdate (InCfg cfg9) false (mkOut false 1 1 0) true (ex_obs_p 4 1)] in
+   c17 (CBalancer 1 4 100 good) = true /\ accept_case (CBalancer 1 4 100 good) = None) /\
+  (let bad := [EvUpdate (InNil 0) false (mkOut false 1 1 1) true (ex_obs_p 4 1); EvShutdown 1000 (ex_obs_p 4 0);
+               EvUpdate (InCfg cfg9) false (mkOut false 1 1 1) true (ex_obs_p 9 1)] in
+   c17 (CBalancer 1 4 100 bad) = false /\ accept_case (CBalancer 1 4 100 bad) <> None) /\
+  (let bad2 := [EvUpdate (InNil 0) true (mkOut false 2 0 0) true (ex_obs_p 4 0);
+                EvUpdate (InCfg cfg9) false (mkOut false 1 1 1) true (ex_obs_p 9 1)] in
+   c17 (CBalancer 1 4 100 bad2) = false).
+Proof. vm_compute. repeat split; auto; discriminate. Qed.
 
 (* known findings: the inputs, what the library does, what the documented mapping says *)
 Definition pool_with (k : str) (v : json) : json := JObj [(n_channelPool, JObj [(k, v)])].
